@@ -396,7 +396,20 @@ class AsCompleted(_CHarness):
           [f'w{i}' for i in range(p['W'])], call_timeout=p['timeout'])
       self.pool = pool
       pool.wait_until_alive(minimum_num_workers=p['W'])
-      fake_courier.NET.menu = {'maybe_make': list(p['menu'])}
+      fake_courier.NET.menu = {'maybe_make': [
+          k for k in p['menu'] if k != fake_courier.RESTART]}
+      if fake_courier.RESTART in p['menu']:
+        fake_courier.NET.menu['*'] = [fake_courier.RESTART]
+
+      def factory(i):
+        def make():
+          _forget_server(m, f'w{i}')
+          s = m.courier_server.CourierServer(f'w{i}', clients=clients)
+          s.start()
+          servers.append(s)
+          return s
+        return make
+      fake_courier.NET.factories = {f'w{i}': factory(i) for i in range(p['W'])}
       # random.shuffle of the candidate workers as an environment choice (any
       # rotation, one deviation each) instead of the identity
       cenv._VRandom.choice_points = bool(p.get('shuffle'))
@@ -1209,8 +1222,24 @@ class ShardedPipelines(_CHarness):
       per_call = [k for k in p['menu'] if k != fake_courier.KILL_OTHER]
       fake_courier.NET.menu = {'next_batch_from_generator': per_call,
                                'init_generator': per_call}
-      if fake_courier.KILL_OTHER in p['menu']:
-        fake_courier.NET.menu['*'] = [fake_courier.KILL_OTHER]
+      per_call = [k for k in per_call if k != fake_courier.RESTART]
+      fake_courier.NET.menu = {'next_batch_from_generator': per_call,
+                               'init_generator': per_call}
+      star = [k for k in (fake_courier.KILL_OTHER, fake_courier.RESTART)
+              if k in p['menu']]
+      if star:
+        fake_courier.NET.menu['*'] = star
+
+      def factory(i):
+        def make():
+          _forget_server(m, f'w{i}')
+          s = m.courier_server.PrefetchedCourierServer(
+              f'w{i}', clients=clients, prefetch_size=2)
+          s.start()
+          servers.append(s)
+          return s
+        return make
+      fake_courier.NET.factories = {f'w{i}': factory(i) for i in range(p['W'])}
       cenv._VRandom.choice_points = bool(p.get('shuffle'))
       rq = vqueue.SimpleQueue() if p['agg'] else None
       kw = {}
@@ -1337,6 +1366,8 @@ class ShardedPipelines(_CHarness):
 
 
 def _killed(calls):
+  """Workers that were killed at some point (a worker that rejoins later is
+  still counted: 'one worker stays usable' is about the others)."""
   out = set()
   for c in calls:
     if c[2] == 'kill':
@@ -1344,6 +1375,14 @@ def _killed(calls):
     elif c[2].startswith('kill-other:'):
       out.add(c[2].split(':', 1)[1])
   return out
+
+
+def _forget_server(m, name):
+  """The process behind `name` is gone: drop the singleton entry so that the
+  next construction yields a fresh server object."""
+  inst = m.courier_server._CourierServerSingleton._instances
+  for k in [k for k in list(inst) if getattr(k, 'server_name', None) == name]:
+    del inst[k]
 
 
 def _agg_equal(a, b):
